@@ -140,11 +140,36 @@ int cpputest_malloc_get_count()
 
 static TestMemoryAllocator* originalAllocator = NULLPTR;
 
+/* Stands in for the malloc allocator while out-of-memory is simulated: every request is refused, but a block that the
+ * real allocator handed out earlier is still released through that allocator and recognised as coming from it. */
+class OutOfMemoryAllocator: public TestMemoryAllocator
+{
+public:
+    OutOfMemoryAllocator() : TestMemoryAllocator("Out Of Memory Allocator", "unknown", "unknown"), realAllocator_(NULLPTR) {}
+
+    void standInFor(TestMemoryAllocator* realAllocator) { realAllocator_ = realAllocator; }
+
+    virtual char* alloc_memory(size_t, const char*, size_t) CPPUTEST_OVERRIDE { return NULLPTR; }
+    virtual void free_memory(char* memory, size_t size, const char* file, size_t line) CPPUTEST_OVERRIDE { realAllocator_->free_memory(memory, size, file, line); }
+    virtual void freeMemoryLeakNode(char* memory) CPPUTEST_OVERRIDE { realAllocator_->freeMemoryLeakNode(memory); }
+    virtual TestMemoryAllocator* actualAllocator() CPPUTEST_OVERRIDE { return realAllocator_->actualAllocator(); }
+
+private:
+    TestMemoryAllocator* realAllocator_;
+};
+
+static OutOfMemoryAllocator* outOfMemoryAllocator()
+{
+    static OutOfMemoryAllocator allocator;
+    return &allocator;
+}
+
 void cpputest_malloc_set_out_of_memory()
 {
     if (originalAllocator == NULLPTR)
         originalAllocator = getCurrentMallocAllocator();
-    setCurrentMallocAllocator(NullUnknownAllocator::defaultAllocator());
+    outOfMemoryAllocator()->standInFor(originalAllocator);
+    setCurrentMallocAllocator(outOfMemoryAllocator());
 }
 
 void cpputest_malloc_set_not_out_of_memory()
